@@ -981,6 +981,49 @@ def _forward_flags(fn):
     return changed[0]
 
 
+def _forward_loop_flags(fn):
+    """N11: a loop driven by a flag that is recomputed by the same call before the loop and as
+    the last statement of its body, and read nowhere but in the loop test:
+        x = E; while T(x): B; x = E      ==      while T(E): B"""
+    loads = {}
+    for n in _walk_no_nested(fn):
+        if isinstance(n, ast.Name) and isinstance(n.ctx, ast.Load):
+            loads[n.id] = loads.get(n.id, 0) + 1
+    changed = [False]
+
+    def block(stmts):
+        i = 0
+        while i < len(stmts):
+            st = stmts[i]
+            for field in ('body', 'orelse', 'finalbody'):
+                sub = getattr(st, field, None)
+                if isinstance(sub, list) and not isinstance(st, (ast.FunctionDef, ast.AsyncFunctionDef, ast.ClassDef)):
+                    block(sub)
+            for h in getattr(st, 'handlers', []) or []:
+                block(h.body)
+            if isinstance(st, ast.While) and i > 0 and not st.orelse and st.body:
+                pre, last = stmts[i - 1], st.body[-1]
+                if isinstance(pre, ast.Assign) and isinstance(last, ast.Assign) and len(pre.targets) == 1 and \
+                        len(last.targets) == 1 and isinstance(pre.targets[0], ast.Name) and isinstance(
+                        last.targets[0], ast.Name) and pre.targets[0].id == last.targets[0].id and isinstance(
+                        pre.value, ast.Call) and ast.dump(pre.value) == ast.dump(last.value):
+                    x = pre.targets[0].id
+                    uses = [n for n in ast.walk(st.test) if isinstance(n, ast.Name) and n.id == x]
+                    others = [n for b in st.body[:-1] for n in ast.walk(b) if isinstance(n, ast.Name) and n.id == x]
+                    if len(uses) == 1 and loads.get(x, 0) == 1 and not others and not _own_jumps(st.body, ast.Continue):
+                        class R(ast.NodeTransformer):
+                            def visit_Name(self, node):
+                                return copy.deepcopy(pre.value) if node is uses[0] else node
+                        st.test = R().visit(st.test)
+                        st.body = st.body[:-1] or [ast.copy_location(ast.Pass(), st)]
+                        del stmts[i - 1]
+                        changed[0] = True
+                        continue
+            i += 1
+    block(fn.body)
+    return changed[0]
+
+
 def _closures(fn):
     """N9: local helper closures of `fn` -- nested defs and `name = lambda ...` bound exactly once.
     A call of a closure evaluates its body with the enclosing variables as they are at the call
@@ -1067,6 +1110,7 @@ def normalize_module(tree, no_inline, all_classes=None):
                     break
             _forward_process_temps(fn)
             _forward_flags(fn)
+            _forward_loop_flags(fn)
     for fn in [n for n in tree.body if isinstance(n, ast.FunctionDef)]:
         _forward_process_temps(fn)
     ast.fix_missing_locations(tree)
